@@ -377,6 +377,17 @@ def main():
                 chk.violation("%s:%s" % (b["sig"], c_sig(b["cfgkey"])), "[%s %s] %s" % (variant, b["cfgkey"], b["msg"]), {"variant": variant, **b})
         stats[variant] = s
         chk.seen(s["requests"])
+    # valgrind memcheck on the shipped artefact: every octet handed to send(2) is defined, nothing is read past live data
+    mc = runner.run_memcheck(a.seed)
+    chk.extra["memcheck"] = {k: v for k, v in mc.items() if k != "reports"}
+    chk.extra["memcheck"]["reports_in_fast_so"] = len(mc["reports"])
+    if mc.get("timeout") or not mc.get("completed"):
+        chk.inconc("memcheck workload did not complete (%s)" % ("timeout" if mc.get("timeout") else "see stderr"))
+    for kind, text in mc["reports"]:
+        chk.violation("memcheck:%s" % kind.split(" ")[0].lower() + ":" + ("sendto" if "send" in kind else "other"),
+                      "valgrind memcheck: %s (frame in _fast.so) : %s" % (kind, text[-500:].replace("\n", " | ")), {"report": text})
+    chk.seen(mc["exchanges"])
+    chk.distinct.add("memcheck")
     chk.extra["rig_p"] = stats
     chk.floor("size_sweep_requests", sum(s["requests"] for s in stats.values()), 3000)
     chk.floor("refused_requests", sum(s["refused"] for s in stats.values()), 100)
